@@ -126,7 +126,10 @@ def check_table(rep, tname, M):
                 )
     # non-members
     names = {k.lower() for k in mem}
-    for bogus in ("", "no_such_member_", *(k + "_" for k in list(mem)[:3]), *(k[:-1] for k in list(mem)[:3])):
+    # non-members: near misses of member names, and every other attribute name the table (or its metaclass) has, in three letter cases
+    attr_names = sorted({a for a in list(dir(M)) + list(dir(type(M)))})
+    attr_forms = [f(a) for a in attr_names for f in (str, str.upper, str.capitalize)]
+    for bogus in dict.fromkeys(["", "no_such_member_", *(k + "_" for k in list(mem)[:3]), *(k[:-1] for k in list(mem)[:3])] + attr_forms):
         if bogus.lower() in names:
             continue
         sentinel = object()
